@@ -30,7 +30,7 @@ pub struct Findings(Vec<Finding>);
 
 impl Findings {
     pub fn load() -> Self {
-        let p = PathBuf::from(crate::runner::VERIF_DIR).join("known_findings.json");
+        let p = crate::runner::verif_dir().join("known_findings.json");
         match std::fs::read(&p) {
             Ok(b) => {
                 #[derive(Deserialize)]
